@@ -198,6 +198,11 @@ def parse_type(q):
     if q0 in TYPEDEFS:
         t, r2, c2 = parse_type(TYPEDEFS[q0])
         return t, is_ref or r2, is_const or c2
+    mps = re.match(r'^(?:romea::core::)?(?:PointSet|VectorOfEigenVector)<(.*)>$', q0)
+    if mps:
+        et, _, _ = parse_type(mps.group(1))
+        if et[0] == 'eig':
+            return ('vector', et), is_ref, is_const       # using PointSet = VectorOfEigenVector<P> = std::vector<P, aligned_allocator<P>>
     mq = re.match(r'^Eigen::(?:Quaternion|AngleAxis)<\s*(double|float)\b', q0)
     if mq or q0 in ('Eigen::Quaterniond', 'Eigen::Quaternionf', 'Eigen::AngleAxisd', 'Eigen::AngleAxisf'):
         st = ('float', 64 if (mq.group(1) if mq else ('double' if q0.endswith('d') else 'float')) == 'double' else 32)
@@ -1352,18 +1357,21 @@ class FnTranslator:
         if not init:
             self.err(d, 'JacobiSVD without a matrix')
         args = [a for a in self.inner(self.strip(init[0])) if self.strip(a)['kind'] != 'CXXDefaultArgExpr']
-        m = self.eig(self.fixed_eigen_operand(args[0]))
-        if (m.rows, m.cols) != (2, 2):
+        try:
+            m = self.eig(args[0])
+        except ExtractError:
+            m = self.eig(self.fixed_eigen_operand(args[0]))
+        if (m.rows, m.cols) not in ((2, 2), (3, 3)):
             self.err(d, 'JacobiSVD of a %dx%d matrix has no contract here' % (m.rows, m.cols))
         out = []
         coeffs = []
-        for i in range(2):
-            for j in range(2):
+        for i in range(m.rows):
+            for j in range(m.cols):
                 nm = self.tmp(m.st)
                 out.append(('decl', nm, m.st, m.get(i, j)))
                 coeffs.append(('var', nm, m.st))
-        self.svd_vars[d['id']] = (coeffs, m.st)
-        self.rule('Eigen::JacobiSVD of a fixed 2x2 matrix -> assumed contract (uninterpreted svd2_* of the four coefficients)')
+        self.svd_vars[d['id']] = (coeffs, m.st, m.rows)
+        self.rule('Eigen::JacobiSVD of a fixed 2x2 / 3x3 matrix -> assumed contract (uninterpreted svd<n>_* of the coefficients)')
         return self.flush() + out
 
     def vardecl(self, d):
@@ -1397,6 +1405,13 @@ class FnTranslator:
                 return []
             self.vars[d['id']] = (name, t, True)
             return [('decl', name, ('ptr', t), ('addr', lv, ('ptr', t)))]
+        if t[0] == 'eigdyn' and init is not None:
+            # dynamic-size Eigen local initialised from a fixed-size value (svd.matrixU(), a fixed block ...): it has that size for good
+            ev = self.eig(init)
+            t = ('eig', ev.st, ev.rows, ev.cols)
+            self.rule('dynamic-size Eigen local initialised from a fixed-size value: declared with that size')
+            self.vars[d['id']] = (name, t, False)
+            return self.flush() + [('decl', name, t, None)] + self.eig_store(('var', name, t), t, ev)
         self.vars[d['id']] = (name, t, False)
         if t[0] == 'iter':
             c, i = self.iter_of(init)
@@ -1504,6 +1519,25 @@ class FnTranslator:
             if op in ('+=', '-=', '*=', '/=') and (self.T(args[0])[0] == 'eig' or self.is_eigen_node(args[0])):
                 lhs = self.eig(args[0])
                 lt = ('eig', lhs.st, lhs.rows, lhs.cols)
+                if lhs.lv is None and hasattr(lhs, 'sub'):
+                    # compound assignment to a block/col/row view: values through temporaries, then stored coefficient by coefficient
+                    base, idxs = lhs.sub
+                    if self.is_eigen_node(args[1]) or self.T(args[1])[0] == 'eig':
+                        rhs = self.eig(args[1])
+                        if rhs.rows * rhs.cols != len(idxs):
+                            self.err(n0, 'compound block assignment shape')
+                        rv = lambda q: rhs.get(q // rhs.cols, q % rhs.cols)
+                    else:
+                        sc = self.expr(args[1])
+                        rv = lambda q: sc
+                    out, names = [], []
+                    for q, kk in enumerate(idxs):
+                        nm = self.tmp(lhs.st); names.append(nm)
+                        out.append(('decl', nm, lhs.st, ('bin', op[0], ('elem', base, kk, lhs.st), rv(q), lhs.st)))
+                    for kk, nm in zip(idxs, names):
+                        out.append(('assign', ('elem', base, kk, lhs.st), ('var', nm, lhs.st)))
+                    self.rule('eigen: compound assignment to a fixed block/col/row through temporaries')
+                    return self.flush() + out
                 if lhs.lv is None:
                     self.err(n0, 'compound assignment to a temporary Eigen expression')
                 rt = self.T(args[1])
@@ -2558,6 +2592,8 @@ class FnTranslator:
                 return self.quat_to_rot(self.eig(qa[0]))
         if k in ('DeclRefExpr', 'MemberExpr'):
             lv = self.lvalue(n)
+            if t[0] != 'eig' and lv[0] == 'var' and isinstance(lv[-1], tuple) and lv[-1][0] == 'eig':
+                t = lv[-1]          # a dynamic-size local that was declared with the fixed size of its initialiser
             return self.eig_of_lv(lv, t)
         if k == 'ImplicitCastExpr':
             ck = n.get('castKind')
@@ -2651,6 +2687,9 @@ class FnTranslator:
             if op == '=':
                 self.pre += self.expr_stmt(n)
                 return self.eig(args[0])
+            if op == '[]' and len(args) == 2 and self.T(args[0])[0] == 'vector' and self.T(args[0])[1][0] == 'eig':
+                lv = self.lvalue(n)        # element of a std::vector of fixed-size Eigen objects
+                return self.eig_of_lv(lv, self.T(args[0])[1])
             # repository operator returning an Eigen value
             callee = self.callee_decl(n)
             e = self.repo_call(n, callee, args, t)
@@ -2744,11 +2783,12 @@ class FnTranslator:
         o0 = self.strip(obj)
         while o0['kind'] in ('ImplicitCastExpr', 'ParenExpr') and self.inner(o0):
             o0 = self.strip(self.inner(o0)[0])
-        if o0['kind'] == 'DeclRefExpr' and o0.get('referencedDecl', {}).get('id') in self.svd_vars and name in ('singularValues', 'matrixU'):
-            coeffs, st = self.svd_vars[o0['referencedDecl']['id']]
+        if o0['kind'] == 'DeclRefExpr' and o0.get('referencedDecl', {}).get('id') in self.svd_vars and name in ('singularValues', 'matrixU', 'matrixV'):
+            coeffs, st, nn = self.svd_vars[o0['referencedDecl']['id']]
             if name == 'singularValues':
-                return EigVal(st, 2, 1, lambda i, j: ('call', 'svd2_s%d' % i, list(coeffs), st))
-            return EigVal(st, 2, 2, lambda i, j: ('call', 'svd2_u%d%d' % (i, j), list(coeffs), st))
+                return EigVal(st, nn, 1, lambda i, j: ('call', 'svd%d_s%d' % (nn, i), list(coeffs), st))
+            letter = 'u' if name == 'matrixU' else 'v'
+            return EigVal(st, nn, nn, lambda i, j: ('call', 'svd%d_%s%d%d' % (nn, letter, i, j), list(coeffs), st))
         a = self.eig(obj)
         if name in EIGEN_PASS:
             r = EigVal(a.st, a.rows, a.cols, a.get, lv=a.lv)
